@@ -1234,8 +1234,13 @@ def execute(ctx, cfg, desc, seed, stepper, workdir, stats=None):
         stepper.attach(fs)
     newdir_kind = "inline" if cfgkind == "inline" else "linear"
     ob = observe(ctx, fs, model, workdir, cfgkind, full=True)
-    if ob["viol"] or ob.get("harness"):
-        res["harness"] = "fresh filesystem is not clean: %r" % (ob["viol"] or ob.get("harness"),)
+    if ob.get("harness") or ob.get("timeout"):
+        res["harness"] = "fresh filesystem: %r" % (ob.get("harness") or "timeout",)
+        return res
+    if ob["viol"]:
+        # mke2fs made root and lost+found with the same library calls
+        res["viol"] = (ob["viol"][0], "fresh filesystem made by mke2fs %s: %s" % (cfg[1], ob["viol"][1]))
+        res["after"] = "mke2fs"
         return res
     prev_shapes = ob["shapes"]
     view = {"shapes": ob["shapes"], "inos": ob["inos"], "img": None}
